@@ -72,12 +72,18 @@ def source_scan(files):
     return hits
 
 
-def lean_sources():
+def lean_sources(prop_modules=None):
+    """Model/, Lemmas/, the driver, and the Props files of the given modules (all Props when None)"""
     res = []
     for dp, dn, fn in os.walk(os.path.join(LEAN_DIR, 'BespokeVerif')):
         for n in fn:
             if n.endswith('.lean'):
-                res.append(os.path.join(dp, n))
+                fp = os.path.join(dp, n)
+                if os.path.basename(dp) == 'Props' and prop_modules is not None:
+                    mod = 'BespokeVerif.Props.' + n[:-5]
+                    if mod not in prop_modules:
+                        continue
+                res.append(fp)
     res.append(os.path.join(LEAN_DIR, 'Driver.lean'))
     return sorted(res)
 
